@@ -575,6 +575,9 @@ func (hash Hash) String() string {
 }
 
 func (hash Hash) Equal(other Hash) bool {
+	if len(hash) != len(other) {
+		return false
+	}
 	for i := range hash {
 		if i == len(other) {
 			break
